@@ -96,6 +96,7 @@ Definition law (k : fkind) (dflt : val) (ts : list str) : outcome val :=
   | FkComplex b => l <- omapL (parse_complex b) ts ;; Ok (last_of l VNil)
   | FkDuration => l <- omapL parse_duration ts ;; Ok (VInt (last_of l 0%Z))
   | FkTime => l <- omapL time_value ts ;; Ok (last_of l VNil)
+  | FkEnum ws => if forallb (fun t => existsb (str_eqb t) ws) ts then Ok (VText (last_of ts [])) else Err e_syntax
   | FkText true => Ok (VText (last_of ts []))
   | FkText false => Ok dflt
   | FkIP => l <- omapL parse_ip ts ;; Ok (last_of l VNil)
